@@ -12,14 +12,14 @@ def run(ctx):
     ctx.assume("equality of fundamental groups is decided through first homology and small-index class counts, as the statement says")
     ev = ctx.work / "events.ndjson"
     if ctx.quick:
-        ctx.dsv("C16", "drive", "--out", ev, "--max3d", 3, "--permille", 500, timeout=7200)
+        ctx.dsv("C16", "drive", "--out", ev, "--max3d", 3, "--permille", 500, "--per-base", 1, timeout=7200)
     else:
         ctx.dsv("C16", "drive", "--out", ev, "--max3d", 3, "--permille", 1000, timeout=14400)
     for ln in open(ev):
         e = json.loads(ln)
         if e.get("some") and e["out"]["n"] != e["in"]["n"]:
             ctx.nontrivial.add(json.dumps(e["in"], sort_keys=True)[:2000])
-    rej = ctx.validate("Trace_C16", ev, shard=8, xmx="6g", timeout=7200)
+    rej = ctx.validate("Trace_C16", ev, shard=24, xmx="6g", timeout=7200)
     ctx.confirm_and_raise("Trace_C16", rej)
 
 
